@@ -152,7 +152,7 @@ func sanitisedOnly(c *Ctx, pa *provAnalysis, fns []*ssa.Function, comp string) (
 }
 
 func checkC14(c *Ctx, r *Report) {
-	r.Rules = []string{"D8 version schema decision table", "D8 semver split: rewrite only on successful parse, explicit prerelease/metadata win", "F13 separator literals in templates, file names and formatters", "F13 prerelease sanitised for rpm and archlinux", "epoch syntax", "D8-order environment expansion precedes the defaults", "F13-width parsed components are not narrowed after the parse", "D8-verbatim the version field is never handed to a string-rewriting function in a packager", "lossless-F6-parsed no branch on a parsed epoch/release (imported from C02)", "D8-packager-store packagers only default-fill version components", "lossless-F6 the rpm version keeps every configured component on every path (imported from C02)"}
+	r.Rules = []string{"D8 version schema decision table", "D8 semver split: rewrite only on successful parse, explicit prerelease/metadata win", "F13 separator literals in templates, file names and formatters", "F13 prerelease sanitised for rpm and archlinux", "epoch syntax", "D8-order environment expansion precedes the defaults", "F13-width parsed components are not narrowed after the parse", "D8-verbatim the version field is never handed to a string-rewriting function in a packager", "lossless-F6-parsed no branch on a parsed epoch/release (imported from C02)", "D8-packager-store packagers only default-fill version components", "lossless-F6 the rpm version keeps every configured component on every path (imported from C02)", "D8-parse-arg the semver parser is handed the configured version unrewritten", "D8-split-unguarded whether the split runs depends on the schema alone", "D8-verbatim (extended) deb, ipk and apk also leave prerelease and metadata unrewritten"}
 	r.Explanation = "Decision-table and literal-provenance rules. (D8) nfpm.WithDefaults is abstractly evaluated for version_schema in {none, semver, empty, anything else}: the semver split is dead for 'none' and live otherwise; inside the split the version is rewritten only on the success edge of the parse, from major/minor/patch alone, and prerelease and metadata are filled from the parsed version only behind an emptiness test of the same field (explicit values win; nothing is duplicated because the rewritten version carries no prerelease/metadata). (F13) in the deb and ipk control templates, in their conventional file names and in rpm's version formatter the literal immediately before the prerelease is '~' — the only character both dpkg and rpmvercmp order before the end of the string, so this literal is what makes every prerelease build sort before its release — metadata is introduced by '+', release by '-', the epoch is followed by ':' (deb/ipk) or goes to the numeric rpm epoch with its parse error returned; rpm and archlinux replace '-' by '_' in the prerelease. Concrete version comparison is not executed."
 	r.Explanation += " (D8-order) in the function that expands the configuration every WithDefaults call is dominated by the expansion. (F13-width) an epoch/release parsed with N bits is never converted to a narrower integer type."
 	r.Explanation += " (D8-verbatim) in every packager each load of Info.Version reaches, through phis and conversions, only formatting, concatenation, comparison and module functions - no strings/bytes/regexp/path rewriting call. (lossless-F6-parsed) imported from C02."
@@ -211,6 +211,42 @@ func checkC14(c *Ctx, r *Report) {
 		want := schema != "none"
 		r.Check(parsed == want, "D8-schema", fmt.Sprintf("version_schema=%q", schema), c.pos(wd.Pos()), fmt.Sprintf("semver split live=%v, expected=%v ('none' must leave the version verbatim)", parsed, want))
 	}
+	// whether the split runs is a matter of the schema alone: a test of the
+	// version's own text in front of it (has a dot, starts with a digit, ...)
+	// leaves versions the parser would split - "v2", "2-rc1" - verbatim
+	{
+		nSites := 0
+		for _, host := range sortedFuncs(c, c.Reach(wd)) {
+			if !c.isModuleFunc(host) || host == split {
+				continue
+			}
+			forEachInstr(host, func(in ssa.Instruction) {
+				call, ok := in.(*ssa.Call)
+				if !ok || call.Call.StaticCallee() != split {
+					return
+				}
+				nSites++
+				foreign := ""
+				for b := call.Block(); b != nil; b = b.Idom() {
+					if len(b.Preds) != 1 {
+						continue
+					}
+					ifi, isIf := b.Preds[0].Instrs[len(b.Preds[0].Instrs)-1].(*ssa.If)
+					if !isIf {
+						continue
+					}
+					for _, a := range infoAtoms(pa.Of(ifi.Cond)) {
+						if a != "Info.VersionSchema" {
+							foreign = a
+						}
+					}
+				}
+				r.Check(foreign == "", "D8-split-unguarded", fmt.Sprintf("the semver split in %s depends on the schema alone", c.funcKey(host)), c.instrPos(call),
+					"the call of the split is guarded by a test of "+foreign+": a version the lenient parser accepts but the test refuses stays verbatim (a single number with a prerelease then sorts after its release in deb)")
+			})
+		}
+		r.Floor("D8-split-unguarded", nSites, 1)
+	}
 	// inside the split
 	var parse *ssa.Call
 	forEachInstr(split, func(in ssa.Instruction) {
@@ -218,6 +254,14 @@ func checkC14(c *Ctx, r *Report) {
 			parse = call
 		}
 	})
+	// what is parsed is the configured version as it stands: a rewritten
+	// argument (case-folded, trimmed of a prefix, cut at a separator) makes
+	// the parser accept or split something other than what was configured
+	if parse != nil && len(parse.Call.Args) > 0 {
+		arg := parse.Call.Args[0]
+		r.Check(plainFieldValue(pa, arg, split, 0) && pa.Of(arg).has("Info.Version"), "D8-parse-arg", "the semver parser is handed the configured version as written", c.instrPos(parse),
+			fmt.Sprintf("the argument is %s (derives from {%s}): a version the parser would refuse is split, or a prerelease/metadata is parsed in another spelling than configured", shorten(valueExpr(c, arg, 0), 80), pa.Of(arg).String()))
+	}
 	perr, _ := errValueOf(parse)
 	var okEdge *ssa.BasicBlock
 	if perr != nil {
@@ -605,7 +649,9 @@ func checkVersionLines(c *Ctx, r *Report) {
 	r.Floor("lossless-F6-parsed", importRules(c, r, checkC02, "lossless-", []string{"F6-parsed"}, nil), 3)
 	// the rpm version keeps every configured component on every path (rule of
 	// C02; the archlinux rows carry that property's known finding and stay there)
-	r.Floor("lossless-F6", importRules(c, r, checkC02, "lossless-", []string{"F6"}, func(o Obligation) bool { return strings.HasPrefix(o.Construct, "rpm") }), 2)
+	r.Floor("lossless-F6", importRules(c, r, checkC02, "lossless-", []string{"F6"}, func(o Obligation) bool {
+		return strings.HasPrefix(o.Construct, "rpm") || strings.HasPrefix(o.Construct, "deb") || strings.HasPrefix(o.Construct, "ipk")
+	}), 2)
 	checkVersionVerbatim(c, r)
 	checkPackagerKeepsComponents(c, r)
 	r.Floor("lossless-F3", importRules(c, r, checkC02, "lossless-", []string{"F3"}, func(o Obligation) bool {
@@ -638,7 +684,18 @@ func checkVersionVerbatim(c *Ctx, r *Report) {
 					return
 				}
 				pth, root := addrPath(ld.X)
-				if root == nil || pth != "Version" || !isPtrToNamed(root.Type(), modPath, "Info") {
+				if root == nil || !isPtrToNamed(root.Type(), modPath, "Info") {
+					return
+				}
+				switch pth {
+				case "Version":
+				case "Prerelease", "VersionMetadata":
+					// rpm and archlinux sanitise these (F13); the others state
+					// them as the split left them
+					if pk.Format == "rpm" || pk.Format == "archlinux" {
+						return
+					}
+				default:
 					return
 				}
 				loads++
@@ -663,6 +720,12 @@ func checkVersionVerbatim(c *Ctx, r *Report) {
 							switch o.Pkg().Path() {
 							case "strings", "bytes", "regexp", "unicode", "path", "path/filepath":
 							default:
+								continue
+							}
+							if sig, _ := o.Type().(*types.Signature); sig != nil && sig.Recv() != nil && o.Name() == "Replace" {
+								// (*strings.Replacer).Replace
+								bad = append(bad, o.FullName())
+								at = x
 								continue
 							}
 							switch o.Name() {
